@@ -5,6 +5,7 @@ import (
 	"encoding/json"
 	"fmt"
 	"strings"
+	"sync"
 	"time"
 	"unicode/utf8"
 
@@ -270,7 +271,25 @@ type InjInput struct {
 	At     int    `json:"at"`
 	Bytes  []byte `json:"bytes"`
 	Note   string `json:"note"`
-	Insert bool   `json:"insert"` // insert before packet At instead of replacing it
+	Insert bool   `json:"insert"`          // insert before packet At instead of replacing it
+	BigN   int    `json:"big_n,omitempty"` // > 0: the history is the big-transaction scale history of BigN rows events
+}
+
+var bigInjHist = map[int]*ref.History{}
+var bigInjMu sync.Mutex
+
+func injHistoryOf(in InjInput) *ref.History {
+	if in.BigN <= 0 {
+		return injHistory()
+	}
+	bigInjMu.Lock()
+	defer bigInjMu.Unlock()
+	if h := bigInjHist[in.BigN]; h != nil {
+		return h
+	}
+	h := scaleHistory(ScaleInput{"big-transaction", in.BigN, ref.Cfg{Checksum: ref.ChecksumCRC32, RowsV2: true, TableID6: true, ServerID: 5, ServerVer: "5.7.30-log"}})
+	bigInjHist[in.BigN] = h
+	return h
 }
 
 var injHist *ref.History
@@ -284,7 +303,7 @@ func injHistory() *ref.History {
 }
 
 func checkInjection(in InjInput) string {
-	h := injHistory()
+	h := injHistoryOf(in)
 	start := ref.Position{File: h.Files[0].Name, Pos: 4}
 	served, _ := h.Serve(start.File, 4)
 	exp, _ := ref.Expect(served, start)
@@ -409,10 +428,47 @@ func RunInjection(r *chk.Run) {
 			}
 		}
 	})
-	n = int64(len(inputs))
+	// the same inside a transaction of very many events: a malformed packet
+	// half way, at the last rows event, at the commit event and right behind it
+	bigN := 20000
+	if r.Thorough() {
+		bigN = 70000
+	}
+	var bigInputs []InjInput
+	{
+		bh := injHistoryOf(InjInput{BigN: bigN})
+		bs, _ := bh.Serve(bh.Files[0].Name, 4)
+		xid := 0
+		for i, e := range bs {
+			if e.Kind == ref.AXID && e.XID == 2 {
+				xid = i
+			}
+		}
+		for _, at := range []int{xid - bigN/2, xid - 1, xid, xid + 1} {
+			for _, l := range []int{0, 10, 19, 23} {
+				if l < len(bs[at].Bytes) {
+					bigInputs = append(bigInputs, InjInput{At: at, Bytes: bs[at].Bytes[:l], BigN: bigN, Note: fmt.Sprintf("event %d (inside / at the end of a transaction of %d rows events) truncated to %d bytes", at, bigN, l)})
+				}
+			}
+			bigInputs = append(bigInputs, InjInput{At: at, Bytes: bytes.Repeat([]byte{0xff}, 19), BigN: bigN, Insert: true, Note: fmt.Sprintf("garbage of 19 bytes in a transaction of %d rows events", bigN)})
+		}
+	}
+	for _, in := range bigInputs {
+		if r.Expired() {
+			r.SetExhaustive(false)
+			break
+		}
+		in2 := in
+		if why := checkInjection(in2); why != "" && why != "HUNG" {
+			r.Report(chk.Violation{Key: injKey(why), What: fmt.Sprintf("%s at packet %d: %s", in2.Note, in2.At, why), Kind: "injection", Replay: in2,
+				Recheck: func() string { return checkInjection(in2) }})
+		}
+	}
+	r.Set("injections_big_transaction", fmt.Sprintf("%d malformed packets inside, at the end of and behind one transaction of %d rows events", len(bigInputs), bigN))
+	n = int64(len(inputs) + len(bigInputs))
 	r.Eval(n)
 	r.States(n)
-	r.Transitions(n * int64(len(served)))
+	r.Transitions(int64(len(inputs))*int64(len(served)) + int64(len(bigInputs))*int64(bigN))
 	r.DistinctN(n)
 	r.Set("injections", len(inputs))
 	r.Set("injection_space", fmt.Sprintf("each of the %d packets of a 4-unit history (CRC32, rows v2) replaced by itself truncated to every shorter length and extended by 1/4/19 bytes; 6 garbage packets inserted before every index; a second clean attempt follows", len(served)))
@@ -1000,8 +1056,17 @@ func checkSchema(in SchemaInput) string {
 			v1.Cols[4].Meta, v1.Cols[5].Meta, v1.Cols[6].Meta = []byte{0}, []byte{0}, []byte{0}
 		}
 	}
+	if in.Variant == "meta" {
+		// columns whose cell layout lives in the table-map metadata: length-prefix
+		// width, precision and scale, pack length
+		v1.Cols = append(v1.Cols, ref.ColVarchar("note", 60), ref.ColBlob("doc", 1), ref.ColDecimal("amt", 10, 2), ref.ColChar("code", 12), ref.ColBit("bits", 6))
+	}
 	v2 := &ref.Table{ID: 101, DB: "shop", Name: "gauge", Flags: 1, Cols: append([]ref.Column{}, v1.Cols...)}
 	switch in.Variant {
+	case "meta":
+		// ALTER ... MODIFY widens the columns: a NEW table id, the same names and
+		// the same number of columns, other metadata
+		v2.Cols[4], v2.Cols[5], v2.Cols[6], v2.Cols[7], v2.Cols[8] = ref.ColVarchar("note", 300), ref.ColBlob("doc", 2), ref.ColDecimal("amt", 12, 4), ref.ColChar("code", 300), ref.ColBit("bits", 14)
 	case "fsp", "fsp0":
 		// ALTER ... MODIFY changes only the precisions; the SAME table id is announced again
 		v2.ID = v1.ID
@@ -1016,6 +1081,17 @@ func checkSchema(in SchemaInput) string {
 	}
 	row := func(t *ref.Table, k int64) ref.Image {
 		img := rowBase(t, k)
+		if in.Variant == "meta" {
+			wide := t.ID == 101
+			vmax, blen, p, sc, cmax, bits := 60, 1, 10, 2, 12, 6
+			amt := "-12345678.91"
+			if wide {
+				vmax, blen, p, sc, cmax, bits = 300, 2, 12, 4, 300, 14
+				amt = "-12345678.9123"
+			}
+			return append(img, ref.VVarchar(vmax, []byte(fmt.Sprintf("note %d", k))), ref.VBlob(blen, []byte(fmt.Sprintf("document %d", k))),
+				ref.VDecimal(p, sc, amt), ref.VChar(cmax, []byte("AB-12")), ref.VBit(bits, uint64(33+k)))
+		}
 		if len(t.Cols) > 4 {
 			f := func(i int) int { return int(t.Cols[i].Meta[0]) }
 			trunc := func(micro, fsp int) int {
@@ -1088,7 +1164,7 @@ func checkSchemaWith(in SchemaInput, v1, v2 *ref.Table, row func(t *ref.Table, k
 func RunSchemaChange(r *chk.Run) {
 	var n int64
 	for _, cfg := range Cfgs() {
-		for _, v := range []string{"sign", "name", "fsp", "fsp0"} {
+		for _, v := range []string{"sign", "name", "fsp", "fsp0", "meta"} {
 			for kind := 0; kind < 3; kind++ {
 				in := SchemaInput{Variant: v, Cfg: cfg, Kind: kind}
 				n++
@@ -1787,18 +1863,41 @@ func scaleHistory(in ScaleInput) *ref.History {
 	g := &Gen{Cfg: in.Cfg}
 	var evs []*ref.AEvent
 	switch in.Case {
-	case "table-ids":
-		// N two-table statements, every table with an id and a name of its own
-		// (a bounded or hashed table cache meets a second table map at every size)
+	case "table-ids", "table-ids+1":
+		// N statements on two and three tables in turn, every table with an id and
+		// a name of its own (a bounded or hashed table cache meets a second or
+		// third table map at every size: with the shifted twin, which starts with
+		// a one-table statement, the k-th new id is a non-first table map of its
+		// statement for every k in one of the two histories)
+		next := uint64(1000)
+		if in.Case == "table-ids+1" {
+			ts := g.tick()
+			t0 := &ref.Table{ID: next, DB: "tenant_first", Name: "orders", Flags: 1, Cols: []ref.Column{
+				ref.ColInt(ref.TLong, "id", false), ref.ColVarchar("label", 40), ref.ColInt(ref.TShort, "qty", true)}}
+			next++
+			evs = append(evs, ref.Q(ts, t0.DB, "BEGIN"), ref.TM(ts, t0), ref.R(ts, ref.RowWrite, t0, ref.RowChange{After: rowA(7, "o", 7)}), ref.X(ts, 999999))
+		}
 		for i := 0; i < in.N; i++ {
 			ts := g.tick()
-			ta := &ref.Table{ID: uint64(1000 + 2*i), DB: fmt.Sprintf("tenant_%06d", i), Name: "orders", Flags: 1, Cols: []ref.Column{
+			ta := &ref.Table{ID: next, DB: fmt.Sprintf("tenant_%06d", i), Name: "orders", Flags: 1, Cols: []ref.Column{
 				ref.ColInt(ref.TLong, "id", false), ref.ColVarchar("label", 40), ref.ColInt(ref.TShort, "qty", true)}}
-			tb := &ref.Table{ID: uint64(1001 + 2*i), DB: fmt.Sprintf("tenant_%06d", i), Name: "orders_audit", Flags: 1, Cols: []ref.Column{
+			tb := &ref.Table{ID: next + 1, DB: fmt.Sprintf("tenant_%06d", i), Name: "orders_audit", Flags: 1, Cols: []ref.Column{
 				ref.ColInt(ref.TLongLong, "seq", true), ref.ColBlob("note", 2)}}
-			evs = append(evs, ref.Q(ts, ta.DB, "BEGIN"), ref.TM(ts, ta), ref.TM(ts, tb),
-				ref.R(ts, ref.RowWrite, ta, ref.RowChange{After: rowA(int64(i), "o", int64(i%60000))}),
-				ref.R(ts, ref.RowWrite, tb, ref.RowChange{After: rowB(uint64(i), "a")}), ref.X(ts, uint64(i+1)))
+			next += 2
+			evs = append(evs, ref.Q(ts, ta.DB, "BEGIN"), ref.TM(ts, ta), ref.TM(ts, tb))
+			var tc *ref.Table
+			if i%2 == 1 {
+				tc = &ref.Table{ID: next, DB: fmt.Sprintf("tenant_%06d", i), Name: "orders_stats", Flags: 1, Cols: []ref.Column{
+					ref.ColInt(ref.TLong, "id", false), ref.ColVarchar("label", 40), ref.ColInt(ref.TShort, "qty", true)}}
+				next++
+				evs = append(evs, ref.TM(ts, tc))
+			}
+			evs = append(evs, ref.R(ts, ref.RowWrite, ta, ref.RowChange{After: rowA(int64(i), "o", int64(i%60000))}),
+				ref.R(ts, ref.RowWrite, tb, ref.RowChange{After: rowB(uint64(i), "a")}))
+			if tc != nil {
+				evs = append(evs, ref.R(ts, ref.RowUpdate, tc, ref.RowChange{Before: rowA(int64(i), "s", 1), After: rowA(int64(i), "s", 2)}))
+			}
+			evs = append(evs, ref.X(ts, uint64(i+1)))
 		}
 	case "big-transaction":
 		// one transaction of N rows events between two small ones
@@ -1853,6 +1952,39 @@ func scaleHistory(in ScaleInput) *ref.History {
 		ts := g.tick()
 		evs = append(evs, ref.Q(ts, "shop", "BEGIN"), ref.TM(ts, t), ref.R(ts, ref.RowWrite, t, ref.RowChange{After: img}, ref.RowChange{After: img}),
 			ref.TM(ts, t), ref.R(ts, ref.RowUpdate, t, ref.RowChange{Before: img, After: img}), ref.TM(ts, t), ref.R(ts, ref.RowDelete, t, ref.RowChange{Before: img}), ref.X(ts, 1))
+	case "cap-transactions":
+		// one BEGIN .. XID transaction for every capacity c a slice grown by append
+		// passes through (up to N), holding exactly c-1, c and c+1 events in turn,
+		// each followed by a small transaction (a list that is full exactly when
+		// the transaction ends, recycled or trimmed, shows in what the handler kept)
+		ta := TA(70)
+		xid := uint64(1)
+		for _, c := range appendCaps(in.N) {
+			if c < 64 {
+				continue
+			}
+			for _, k := range []int{c - 1, c, c + 1} {
+				ts := g.tick()
+				evs = append(evs, ref.Q(ts, "shop", "BEGIN"), ref.TM(ts, ta))
+				for i := 0; i < k; i++ {
+					evs = append(evs, ref.R(ts, ref.RowWrite, ta, ref.RowChange{After: rowA(int64(k*100000+i), "cap", int64(i%60000))}))
+				}
+				evs = append(evs, ref.X(ts, xid))
+				xid++
+				ts = g.tick()
+				evs = append(evs, ref.Q(ts, "shop", "BEGIN"), ref.TM(ts, ta), ref.R(ts, ref.RowDelete, ta, ref.RowChange{Before: rowA(int64(k), "small", 1)}), ref.X(ts, xid))
+				xid++
+			}
+		}
+	case "packet-sizes":
+		// rows events whose PACKETS have exactly the sizes of packetSizes() (2^k-1,
+		// 2^k, 2^k+1; the sizes around which the driver changes its buffering,
+		// ascending and once more after a larger one), each followed by small packets
+		t := &ref.Table{ID: 78, DB: "shop", Name: "docs", Flags: 1, Cols: []ref.Column{ref.ColInt(ref.TLong, "id", false), ref.ColVarchar("title", 300), ref.ColBlob("body", 4)}}
+		for i, size := range packetSizes() {
+			ts := g.tick()
+			evs = append(evs, ref.TM(ts, t), sizedRows(in.Cfg, ts, t, i, size), ref.Q(ts, "shop", fmt.Sprintf("CREATE TABLE t%d (a int)", i)))
+		}
 	case "big-events":
 		// rows events of N bytes (beyond the driver's 4096-byte read buffer, below
 		// and above the 256 KiB it keeps), each followed by small packets while
@@ -1877,7 +2009,7 @@ func checkScale(in ScaleInput) string {
 }
 
 // RunScale streams histories that are large in one dimension each.
-func RunScale(r *chk.Run) {
+func RunScale(r *chk.Run, only ...string) {
 	cfgA := ref.Cfg{Checksum: ref.ChecksumCRC32, RowsV2: true, TableID6: true, ServerID: 5, ServerVer: "5.7.30-log"}
 	cfgB := ref.Cfg{Checksum: ref.ChecksumOff, RowsV2: false, TableID6: false, ServerID: 5, ServerVer: "5.5.62"}
 	ids, bulk := 40000, 20000
@@ -1885,20 +2017,32 @@ func RunScale(r *chk.Run) {
 		ids, bulk = 200000, 70000
 	}
 	cases := []ScaleInput{
-		{"table-ids", ids, cfgA}, {"table-ids", 3000, cfgB},
+		{"table-ids", ids, cfgA}, {"table-ids+1", ids, cfgA}, {"table-ids", 3000, cfgB},
 		{"big-transaction", bulk, cfgA}, {"big-transaction", 5000, cfgB},
 		{"kept-cells", 80, cfgA}, {"kept-cells", 20, cfgB},
 		{"wide-table", 70, cfgA}, {"wide-table", 130, cfgA}, {"wide-table", 300, cfgA}, {"wide-table", 300, cfgB}, {"wide-table", 1000, cfgA},
+		{"cap-transactions", 3000, cfgA}, {"packet-sizes", 0, cfgA},
 		{"big-events", 6000, cfgA}, {"big-events", 6000, cfgB}, {"big-events", 70000, cfgA}, {"big-events", 300000, cfgA},
 	}
 	var n int64
+	var ran []string
 	for _, in := range cases {
 		if r.Expired() {
 			r.SetExhaustive(false)
 			return
 		}
+		if len(only) > 0 {
+			keep := false
+			for _, o := range only {
+				keep = keep || strings.HasPrefix(in.Case, o)
+			}
+			if !keep {
+				continue
+			}
+		}
 		in := in
 		n++
+		ran = append(ran, fmt.Sprintf("%s n=%d %s", in.Case, in.N, CfgName(in.Cfg)))
 		if why := checkScale(in); why != "" && why != "HUNG" {
 			r.Report(chk.Violation{Key: "scale:" + in.Case, What: fmt.Sprintf("%s n=%d cfg=%s: %s", in.Case, in.N, CfgName(in.Cfg), why),
 				Kind: "scale", Replay: in, Recheck: func() string { return checkScale(in) }})
@@ -1906,7 +2050,7 @@ func RunScale(r *chk.Run) {
 	}
 	r.Eval(n)
 	r.DistinctN(n)
-	r.Set("scale_histories", fmt.Sprintf("%d two-table statements on tables with ids and names of their own; one transaction of %d rows events; 80 x 100 kept numeric rows on one table id; tables of 70 / 130 / 300 / 1000 columns; rows events of 6 KB / 70 KB / 300 KB each followed by small packets", ids, bulk))
+	r.Set("scale_histories", ran)
 }
 
 // ReplayScale replays a scale execution.
@@ -1920,4 +2064,354 @@ func ReplayScale(input json.RawMessage) (bool, string) {
 		return false, "every transaction is delivered as the master logged it and stays so"
 	}
 	return true, why
+}
+
+// ---- the master's settings change between files and between connections ----------
+
+// RunChecksumChange streams histories whose files were written under different
+// settings (SET GLOBAL binlog_checksum rotates the log; an upgrade changes the
+// event formats), whole, with the connection lost in front of every packet
+// and a second Stream call on the same Streamer, and resumed by a fresh
+// Streamer at every label. The ROTATE that opens a dump is written under the
+// master's current setting, which need not be the one of the file it names.
+func RunChecksumChange(r *chk.Run) {
+	crc := ref.Cfg{Checksum: ref.ChecksumCRC32, RowsV2: true, TableID6: true, ServerID: 5, ServerVer: "5.7.30-log"}
+	off := ref.Cfg{Checksum: ref.ChecksumOff, RowsV2: true, TableID6: true, ServerID: 5, ServerVer: "5.7.30-log"}
+	old := ref.Cfg{Checksum: ref.ChecksumOff, RowsV2: false, TableID6: false, ServerID: 5, ServerVer: "5.5.62"}
+	cfgs := []ref.Cfg{crc, off, old}
+	scripts := [][]string{
+		{UTxXID, URotate, UTxXID},
+		{UTxXID, UTxCommit, URotate, UAutoRows, UTx2},
+		{UDDL, URotate, UTx2, URotate, UTxXID},
+	}
+	hr := newHistRunner(r, "", func(in HistInput) (string, int, int) {
+		if in.Oracle == "resume" {
+			return checkResume(in), 1, 1
+		}
+		return checkGrouping(in)
+	})
+	n := 0
+	for _, sc := range scripts {
+		files := 1
+		for _, u := range sc {
+			if u == URotate {
+				files++
+			}
+		}
+		total := 1
+		for i := 0; i < files; i++ {
+			total *= len(cfgs)
+		}
+		for x := 0; x < total; x++ {
+			var fc []ref.Cfg
+			same := true
+			for i, y := 0, x; i < files; i++ {
+				fc = append(fc, cfgs[y%len(cfgs)])
+				y /= len(cfgs)
+				same = same && fc[i].Checksum == fc[0].Checksum && fc[i].RowsV2 == fc[0].RowsV2
+			}
+			for gi := -1; gi < 2; gi++ {
+				if same && (gi < 0 || cfgs[gi].Checksum == fc[0].Checksum) {
+					continue // one setting throughout: the ordinary histories
+				}
+				in := HistInput{Units: sc, Cfg: fc[0], FileCfgs: fc, LockStep: true}
+				if gi >= 0 {
+					g := cfgs[gi]
+					in.Global = &g
+				}
+				hr.add(in)
+				n++
+				in2 := in
+				in2.LockStep = false
+				hr.add(in2)
+				in3 := in
+				in3.Oracle = "resume"
+				hr.add(in3)
+				for k := 2; k <= 22; k++ {
+					in4 := in
+					in4.CutAt = k + 1
+					hr.add(in4)
+				}
+			}
+		}
+	}
+	hr.finish()
+	r.Set("settings_change_histories", fmt.Sprintf("%d (3 scripts of 2..3 files x every assignment of {CRC32 / no checksum / 5.5 formats} to the files x the master's current setting {the file's, CRC32, none}); each whole (lock-step and free), resumed by a fresh Streamer at every label, and with the connection lost in front of each of the first 22 packets followed by a second Stream call on the same Streamer", n))
+}
+
+// ---- two streams in one process ------------------------------------------------------
+
+// NestInput: two Streamers exist side by side (both created and positioned
+// before anything streams, the same server id, masters that use the same table
+// ids and table names for different definitions and may differ in every wire
+// setting). The outer one streams; inside its K-th handler call or its K-th
+// call into the table mapper (user code: anything may happen there) the inner
+// one streams its whole history. Afterwards both stream once more from where
+// they stand. Whatever the library keeps outside the Streamer (package-level
+// caches, scratch buffers, pools, the last format seen, a registry of server
+// ids or positions) is handed from one to the other here.
+type NestInput struct {
+	Outer ref.Cfg `json:"outer"`
+	Inner ref.Cfg `json:"inner"`
+	Swap  bool    `json:"swap"`  // the roles of the two histories exchanged
+	Where string  `json:"where"` // "handler" | "mapper"
+	K     int     `json:"k"`
+}
+
+func nestHistories(in NestInput) (*ref.History, *ref.History) {
+	mk := func(cfg ref.Cfg, variant bool, ts0 uint32, file string) *ref.History {
+		t := scriptTable(1, variant)
+		var u *ref.Table
+		if variant {
+			u = altTable('a', 102)
+		} else {
+			u = TB(102)
+		}
+		urow := func(k int64) ref.Image {
+			if variant {
+				return altRow(u, k)
+			}
+			return scriptRow(u, k)
+		}
+		evs := []*ref.AEvent{
+			ref.Q(ts0, "shop", "BEGIN"), ref.TM(ts0, t), ref.R(ts0, ref.RowWrite, t, ref.RowChange{After: scriptRow(t, 1)}, ref.RowChange{After: scriptRow(t, 6)}), ref.X(ts0, 1),
+			ref.Q(ts0+1, "shop", "BEGIN"), ref.TM(ts0+1, t), ref.TM(ts0+1, u),
+			ref.R(ts0+1, ref.RowUpdate, t, ref.RowChange{Before: scriptRow(t, 1), After: scriptRow(t, 2)}),
+			ref.R(ts0+1, ref.RowDelete, u, ref.RowChange{Before: urow(3)}), ref.X(ts0+1, 2),
+			ref.Q(ts0+2, "shop", "CREATE TABLE nest (a int)"),
+			ref.Q(ts0+3, "shop", "BEGIN"), ref.TM(ts0+3, u), ref.R(ts0+3, ref.RowWrite, u, ref.RowChange{After: urow(4)}),
+			ref.TM(ts0+3, t), ref.R(ts0+3, ref.RowWrite, t, ref.RowChange{After: scriptRow(t, 5)}), ref.X(ts0+3, 3),
+		}
+		h := &ref.History{Cfg: cfg, Files: []*ref.File{{Name: file, Events: evs}}}
+		h.Layout()
+		return h
+	}
+	if in.Swap {
+		return mk(in.Outer, true, 1700005000, "mysql-bin.000001"), mk(in.Inner, false, 1700000000, "binlog.000042")
+	}
+	return mk(in.Outer, false, 1700000000, "mysql-bin.000001"), mk(in.Inner, true, 1700005000, "binlog.000042")
+}
+
+// nestCallbacks counts the calls into the mapper of a plain run of the outer history.
+func nestCallbacks(in NestInput) int {
+	outer, _ := nestHistories(in)
+	o := Run(outer, Opts{Start: ref.Position{File: outer.Files[0].Name, Pos: 4}, ServerID: 7, LockStep: true})
+	return o.Mapper.Callbacks
+}
+
+func checkNest(in NestInput) string {
+	outer, inner := nestHistories(in)
+	startO := ref.Position{File: outer.Files[0].Name, Pos: 4}
+	startI := ref.Position{File: inner.Files[0].Name, Pos: 4}
+	expOf := func(h *ref.History, start ref.Position) []ref.ExpTx {
+		served, _ := h.Serve(start.File, 4)
+		exp, _ := ref.Expect(served, start)
+		return exp
+	}
+	expO, expI := expOf(outer, startO), expOf(inner, startI)
+	const id = 3000000001
+	var ri *Runner
+	ran, innerHung := false, false
+	nest := func() {
+		if ran {
+			return
+		}
+		ran = true
+		innerHung = !ri.Attempt()
+	}
+	mo := hx.NewMapper(TablesOf(outer)...)
+	if in.Where == "mapper" {
+		mo.Hook = func(k int, what string) {
+			if k == in.K {
+				nest()
+			}
+		}
+	}
+	oo := Opts{Start: startO, ServerID: id, LockStep: true, KeepTx: true, Mapper: mo}
+	if in.Where != "mapper" {
+		oo.Nest = func(k int) {
+			if k == in.K {
+				nest()
+			}
+		}
+	}
+	ro := Start(outer, oo)
+	ri = Start(inner, Opts{Start: startI, ServerID: id, LockStep: true, KeepTx: true})
+	defer ro.Close()
+	defer ri.Close()
+	okO := ro.Attempt()
+	if !ran {
+		return "" // the outer stream has fewer calls of that kind
+	}
+	where := fmt.Sprintf("inside %s call %d of the outer stream", in.Where, in.K)
+	if innerHung || !okO {
+		return fmt.Sprintf("the inner stream, run %s, did not come to an end within 60 s although its master served everything: a stream must not wait for the user code of another stream", where)
+	}
+	check := func(who string, r *Runner, exp []ref.ExpTx, start ref.Position) string {
+		o := r.Outcome()
+		a := len(o.StreamErr) - 1
+		if o.StreamPanic[a] != "" {
+			return who + ": panic in Stream: " + firstLine(o.StreamPanic[a])
+		}
+		if o.StreamErr[a] != nil {
+			return who + ": Stream failed on a well-formed binlog: " + clip(o.StreamErr[a].Error(), 200)
+		}
+		if d := hx.CompareAll(exp, o.Snaps()); d != "" {
+			return who + ": " + d
+		}
+		for i, d := range o.Deliveries {
+			if diff := d.Snap.Diff(hx.Snapshot(d.Tx)); diff != "" {
+				return fmt.Sprintf("%s: delivery %d changed after it was delivered: %s", who, i, diff)
+			}
+		}
+		want := start
+		if a > 0 && len(exp) > 0 {
+			want = exp[len(exp)-1].Next
+		}
+		d := o.DumpOf(a)
+		if d == nil {
+			return fmt.Sprintf("%s: attempt %d issued no dump request", who, a)
+		}
+		if d.File != want.File || uint64(d.Pos) != want.Pos {
+			return fmt.Sprintf("%s: attempt %d asked for %s:%d, this Streamer stands at %s", who, a, d.File, d.Pos, want)
+		}
+		if d.ServerID != id {
+			return fmt.Sprintf("%s: attempt %d announced server id %d, configured %d", who, a, d.ServerID, uint32(id))
+		}
+		return ""
+	}
+	if why := check("the inner stream ("+where+")", ri, expI, startI); why != "" {
+		return why
+	}
+	if why := check("the outer stream (another master was streamed "+where+")", ro, expO, startO); why != "" {
+		return why
+	}
+	// both once more, from where they stand: nothing is left to deliver
+	if !ro.Attempt() || !ri.Attempt() {
+		return "HUNG"
+	}
+	if why := check("the outer stream, second call", ro, expO, startO); why != "" {
+		return why
+	}
+	if why := check("the inner stream, second call", ri, expI, startI); why != "" {
+		return why
+	}
+	return ""
+}
+
+// RunNested is shared by C01, C05 (scale half), C15 and C16.
+func RunNested(r *chk.Run) {
+	var n int64
+	cfgs := Cfgs()
+	run := func(in NestInput) {
+		n++
+		why := checkNest(in)
+		if why != "" && why != "HUNG" {
+			key := "two-streams"
+			if strings.Contains(why, "did not come to an end") {
+				key = "two-streams:blocked"
+			}
+			r.Report(chk.Violation{Key: key, What: fmt.Sprintf("outer=%s inner=%s swap=%v: %s", CfgName(in.Outer), CfgName(in.Inner), in.Swap, why),
+				Kind: "nest", Replay: in, Recheck: func() string { return checkNest(in) }})
+		}
+	}
+	for _, a := range cfgs {
+		for _, b := range cfgs {
+			for _, swap := range []bool{false, true} {
+				for k := 0; k < 2; k++ {
+					run(NestInput{Outer: a, Inner: b, Swap: swap, Where: "handler", K: k})
+				}
+			}
+		}
+	}
+	// inside every call into the mapper: four pairs of configurations
+	four := []ref.Cfg{cfgs[0], cfgs[len(cfgs)-1]}
+	calls := 0
+	for _, a := range four {
+		for _, b := range four {
+			for _, swap := range []bool{false, true} {
+				nc := nestCallbacks(NestInput{Outer: a, Inner: b, Swap: swap})
+				if nc > calls {
+					calls = nc
+				}
+				for k := 0; k < nc; k++ {
+					if r.Expired() {
+						r.SetExhaustive(false)
+						return
+					}
+					run(NestInput{Outer: a, Inner: b, Swap: swap, Where: "mapper", K: k})
+				}
+			}
+		}
+	}
+	r.Eval(n)
+	r.DistinctN(n)
+	r.Set("two_stream_executions", fmt.Sprintf("%d: two Streamers side by side with the same server id (masters with the same table ids and names, other definitions); the inner one streams its whole history inside handler call 0 / 1 of the outer one (every pair of the %d wire configurations, both role assignments) or inside each of the up to %d calls of the outer stream into its table mapper (4 pairs); then both stream once more from where they stand; oracle: deliveries, kept values, dump requests (position, server id) of both", n, len(cfgs), calls))
+}
+
+// ReplayNest replays a two-stream execution.
+func ReplayNest(input json.RawMessage) (bool, string) {
+	var in NestInput
+	if err := json.Unmarshal(input, &in); err != nil {
+		return false, err.Error()
+	}
+	why := checkNest(in)
+	if why == "" {
+		return false, "both streams deliver what their masters logged and ask for their own positions"
+	}
+	return true, why
+}
+
+// ---- the envelope of query events: session settings must not change anything ----------
+
+// RunQueryEnvelope is shared by C02 and C16: every query event of a history
+// carries one more status variable (every single bit of flags2 and of
+// sql_mode, every other variable a server writes) or one more header flag
+// bit; grouping, database, SQL text and character sets must stay what they are.
+func RunQueryEnvelope(r *chk.Run) {
+	type env struct {
+		name  string
+		vars  []ref.StatusVar
+		flags uint16
+	}
+	var envs []env
+	for b := 0; b < 32; b++ {
+		envs = append(envs, env{fmt.Sprintf("flags2 bit %d", b), []ref.StatusVar{ref.VarFlags2(1 << uint(b))}, 0})
+	}
+	envs = append(envs, env{"flags2 all ones", []ref.StatusVar{ref.VarFlags2(0xffffffff)}, 0}, env{"flags2 zero", []ref.StatusVar{ref.VarFlags2(0)}, 0})
+	for b := 0; b < 34; b++ {
+		envs = append(envs, env{fmt.Sprintf("sql_mode bit %d", b), []ref.StatusVar{ref.VarSQLMode(1 << uint(b))}, 0})
+	}
+	for _, v := range []struct {
+		n string
+		v ref.StatusVar
+	}{{"catalog", ref.VarCatalogNZ([]byte("std"))}, {"auto_increment", ref.VarAutoIncrement(2, 1)}, {"time_zone", ref.VarTimeZone([]byte("+08:00"))},
+		{"lc_time_names", ref.VarLCTimeNames(5)}, {"charset_database", ref.VarCharsetDatabase(45)}, {"table_map_for_update", ref.VarTableMapForUpdate(3)},
+		{"master_data_written", ref.VarMasterDataWritten(77)}, {"invoker", ref.VarInvoker([]byte("root"), []byte("localhost"))},
+		{"updated_db_names", ref.VarUpdatedDBNames([][]byte{[]byte("shop"), []byte("audit")}, false)}, {"updated_db_names overflow", ref.VarUpdatedDBNames(nil, true)},
+		{"microseconds", ref.VarMicroseconds(999999)}, {"explicit_defaults_for_timestamp", ref.VarExplicitDefaultsForTimestamp(1)},
+		{"ddl_logged_with_xid", ref.VarDDLLoggedWithXid(12345)}, {"default_collation_for_utf8mb4", ref.VarDefaultCollationForUTF8MB4(255)},
+		{"sql_require_primary_key", ref.VarSQLRequirePrimaryKey(1)}, {"default_table_encryption", ref.VarDefaultTableEncryption(1)}} {
+		envs = append(envs, env{v.n, []ref.StatusVar{v.v}, 0})
+	}
+	for _, f := range []uint16{0x4, 0x8, 0x10, 0x100, 0x200, 0xc, 0x31c} {
+		envs = append(envs, env{fmt.Sprintf("header flags %#x", f), nil, f})
+	}
+	cfgA := ref.Cfg{Checksum: ref.ChecksumCRC32, RowsV2: true, TableID6: true, ServerID: 5, ServerVer: "5.7.30-log"}
+	cfgB := ref.Cfg{Checksum: ref.ChecksumOff, RowsV2: false, TableID6: false, ServerID: 5, ServerVer: "5.5.62"}
+	hists := [][]string{{UDDL, UTxXID, UAutoRows, UDDL, USet, UTxCommit, UDDL}, {USet, UStmtOut, UTxDDL, UDDL, UDDL, UTxRollback, UStmtOut}}
+	hr := newHistRunner(r, "", func(in HistInput) (string, int, int) { return checkGrouping(in) })
+	n := 0
+	for _, e := range envs {
+		for hi, units := range hists {
+			cfg := cfgA
+			if (n+hi)%2 == 1 {
+				cfg = cfgB
+			}
+			hr.add(HistInput{Units: units, Cfg: cfg, LockStep: true, QVars: e.vars, QFlags: e.flags})
+			n++
+		}
+	}
+	hr.finish()
+	r.Set("query_envelope_histories", fmt.Sprintf("%d: 2 histories of statements in every role (BEGIN / COMMIT / DDL / SET / DML text / inside and outside transactions) x %d session settings on every query event (each bit of flags2 and sql_mode, 16 other status variables, 7 header flag values)", n, len(envs)))
 }
